@@ -19,6 +19,31 @@ CHECKS = {
   note='trusted: the lexical-normalisation reference in Paths.tla (my reading of the property), TLC, the '
        'projection function in harness/checks/c12.py; "//x", "~" and discretionary rejections are not generated',
   design='5/C12'),
+ 'C05': dict(
+  technique='TLA+ contract + design model of default object naming (ObjNames.tla) checked with TLC; '
+            'TLC-generated projects configured (and partly built/cleaned) with the real bfg9000; outcomes '
+            'validated by TLC against the contract (ObjNames_Trace.tla)',
+  text='TLC proves injectivity/containment of the design model of within_directory + default_name for every pair '
+       'of sources within the bound (and, as a vacuity guard, finds the collision in the pre-fix pattern); hundreds '
+       'to thousands of TLC-generated projects (neighbouring sources, submodule depth 0-2, ../ references, five '
+       'target kinds, intermediate_dirs on/off) go through the real configure, a subset through make and make clean, '
+       'and TLC decides each recorded outcome: distinct sources -> configure succeeds with distinct outputs inside '
+       'the build directory, extension-only clashes and duplicates -> configure fails, source tree unchanged.',
+  note='trusted: the contract in ObjNames_Trace.tla, compile_commands.json as the observation of object paths, '
+       'TLC; name alphabet is small (one/two-character names, dotted names); literal PAR excluded',
+  design='5/C05'),
+ 'C20': dict(
+  technique='TLA+ model of the Microsoft C runtime argv rules + design model of windows.quote (WinArgv.tla) and of '
+            'the persisted GUID map (Uuid.tla) checked with TLC; real join/split calls and real MSBuild-backend '
+            'configure/regenerate histories validated by TLC (WinArgv_Trace.tla, Uuid_Trace.tla)',
+  text='Exhaustive within the bound on both sides: TLC checks CrtArgs(Join(args)) = args on the design model for '
+       'every argument list up to the bound, the identical lists are pushed through the real shell.windows.join and '
+       'split, and TLC validates each recorded line with the runtime model. For solutions TLC checks uniqueness, '
+       'closure and stability on the design model of .bfg_uuid and validates parsed .sln files of TLC-generated '
+       'histories of real configure/regenerate runs.',
+  note='trusted: WinArgv.tla as transcription of the documented MS runtime rules (no Windows here), the .sln parser '
+       'in harness/checks/c20.py, TLC; MSBuild projects are parsed, never built',
+  design='5/C20'),
 }
 
 NOT_YET = {}
